@@ -601,6 +601,58 @@ def run(db: DB, rep: Report) -> None:
                    db.loc(bad[0][1]) if bad else ""))
 
     # ---- T12: the registration loops cover every level of every traffic path -------------
+    # ---- T13: the dump sees the bindings registration sees ---------------------------------
+    # Registration (Metrics.__build_traffic_paths -> get_collected_tensor_info) walks only the format
+    # selected for this loop nest (format_options / get_loop_formats).  The dump must drop the buffer
+    # bindings that name another format of the tensor, or it consumes trace files nothing produces.
+    rep.rule("T13", "the buffer bindings whose traces the dump consumes are those of the format selected "
+             "for the loop nest", 1)
+    bt13 = C.methods.get("__build_traffic")
+    if bt13 is None:
+        raise AnalysisError("Collector.__build_traffic not found")
+    n_t13 = 0
+
+    def _format_filter(fn_) -> bool:
+        lf = {st.targets[0].id for root_ in (fn_, bt13.node) for st in ast.walk(root_)
+              if isinstance(st, ast.Assign) and len(st.targets) == 1
+              and isinstance(st.targets[0], ast.Name) and "get_loop_formats" in paths.called_names([st.value])}
+        for c_ in ast.walk(fn_):
+            if not isinstance(c_, ast.Compare):
+                continue
+            txt = [norm(x) for x in [c_.left] + list(c_.comparators)]
+            fm = any("['format']" in t_ or '["format"]' in t_ for t_ in txt)
+            sel = any("get_loop_formats" in t_ or any(_re13.search(r"\b%s\b" % nm, t_) for nm in lf) for t_ in txt)
+            if fm and sel:
+                return True
+        return False
+    import re as _re13
+    for it13 in [n for n in ast.walk(bt13.node) if isinstance(n, (ast.For, ast.comprehension)) and
+                 "get_bindings" in paths.called_names([n.iter]) and
+                 not isinstance(n.iter, ast.Name)]:
+        holder = it13
+        if isinstance(it13, ast.comprehension):
+            holder = next(p_ for p_ in ast.walk(bt13.node) if isinstance(p_, (ast.ListComp, ast.SetComp, ast.DictComp,
+                                                                               ast.GeneratorExp))
+                          and it13 in p_.generators)
+        # only the loop that selects the active bindings (it feeds the bindings the rest works on)
+        n_t13 += 1
+        scopes = [holder]
+        for c_ in ast.walk(holder):
+            if isinstance(c_, ast.Call) and isinstance(c_.func, ast.Attribute) and \
+                    isinstance(c_.func.value, ast.Name) and c_.func.value.id in ("self", "Collector"):
+                g_ = C.methods.get(c_.func.attr)
+                if g_ is not None and g_ is not bt13:
+                    scopes.append(g_.node)
+        ok13 = any(_format_filter(sc) for sc in scopes)
+        rep.check("T13", ok13, db.loc(it13.iter), bt13.short, "bindings-of-selected-format",
+                  "bindings are kept only if binding['format'] is the format get_loop_formats() selected",
+                  "Collector.__build_traffic takes every binding of the buffer (%s), also those that name a "
+                  "format of the tensor the loop nest does not use: their traces are never registered "
+                  "(Metrics.__build_traffic_paths walks the selected format only), so the dump hands "
+                  "Traffic.filterTrace / the traces dictionary file names nothing produced" % norm(it13.iter)[:60])
+    if n_t13 < 1:
+        rep.undecided("T13", db.loc(bt13.node), bt13.short, "no loop over the buffer's bindings found")
+
     rep.rule("T12", "the loops that register traces iterate whole collections (every path, every level)", 4)
     from sa.rules.c18 import _narrow_iter
     for f in (Mx.methods["get_collected_tensor_info"], C.methods["__build_trace_ranks"]):
@@ -739,6 +791,8 @@ def mutants(db: DB):
     col, met, cmp_, hd = ("teaal/trans/collector.py", "teaal/ir/metrics.py", "teaal/ir/component.py",
                           "teaal/trans/header.py")
     return [
+        M("revert F20 fix (bindings of every format are consumed)", col,
+          "                if loop_formats.get(binding[\"tensor\"]) != binding[\"format\"]:\n                    continue\n\n", "", "T13"),
         M("traces registered once per path, from its first level", "teaal/ir/metrics.py",
           "                    for component, style in path:\n                        if isinstance(component, DRAMComponent):\n                            continue\n\n                        if style == \"lazy\":",
           "                    for component, style in path[-1:]:\n                        pass\n                    if True:\n                        if isinstance(component, DRAMComponent):\n                            continue\n\n                        if style == \"lazy\":",
